@@ -16,10 +16,10 @@ from . import _script, _util as U
 PID = "C02"
 MOD = "bbverif.checks.c02"
 
-META = ["plain", "target", "target_opts", "type", "target_type_opts", "device", "blank_lines"]
+META = ["plain", "target", "target_opts", "type", "target_type_opts", "device", "blank_lines", "str_opts"]
 STMTS = ["noargs1", "noargs2_sq", "noargs2_rb", "noargs2_bare", "pos_num", "pos_mixed", "kw_num", "kw_list", "kw_mixed",
          "pos_kw", "measure", "measure_kw", "var_int_mode", "var_float_arg", "var_expr", "var_str_bool", "array_arg",
-         "array_idx", "loop_list", "loop_repeat", "loop_range", "trailing_comma", "expr_mode", "complex_arg", "empty_args"]
+         "array_idx", "loop_list", "loop_repeat", "loop_range", "trailing_comma", "expr_mode", "complex_arg", "empty_args", "str_like_literals"]
 
 
 class Env:
@@ -52,6 +52,10 @@ def meta_lines(kind, lv):
     elif kind == "target_type_opts":
         L.append("target TD2 (shots=%s)" % lv.int())
         L.append("type tdm2 (temporal_modes=%s, copies=%s, names=[\"a\", \"b\"], vals=[%s, %s])" % (lv.int(), lv.int(), lv.int(), lv.float()))
+    elif kind == "str_opts":
+        # strings whose content is spelled like another kind of literal stay strings
+        L.append('target dev (label="True", tag="1.5", flag="False", n=%s)' % lv.int())
+        L.append('type kind (mode="pi", names=["None", "2j", "False"])')
     elif kind == "blank_lines":
         L = ["", "name prog_blank", "", "version 1.0", "", "target foo", ""]
     return L
@@ -62,6 +66,10 @@ def stmt_lines(kind, env):
     m = env.mode
     if kind == "noargs1":
         return ["Vac | %s" % m()]
+    if kind == "str_like_literals":
+        v = env.name("s")
+        return ['str %s = "False"' % v, 'Gate("True", "False", %s, k="pi", names=["1", "None", "True", "q0"], w=%s) | %s' % (lv.float(), v, m()),
+                'Gate("0.5", "1j", "sqrt(2)") | %s' % m()]
     if kind == "noargs2_sq":
         return ["BSgate | [%s, %s]" % (m(), m())]
     if kind == "noargs2_rb":
